@@ -4,8 +4,8 @@ use crate::trees::{self, T};
 use crate::util::*;
 use clvmr::allocator::Allocator;
 use clvmr::serde::{
-    is_canonical_serialization, node_from_stream, node_to_bytes, node_to_bytes_limit, serialized_length,
-    serialized_length_atom, serialized_length_from_bytes_trusted, ObjectCache,
+    is_canonical_serialization, node_from_stream, node_to_bytes, node_to_bytes_limit, parse_triples, serialized_length,
+    serialized_length_atom, serialized_length_from_bytes_trusted, tree_hash_from_stream, ObjectCache, ParsedTriple,
 };
 use std::io::Cursor;
 
@@ -326,6 +326,277 @@ pub fn oracle_big(_rng: &mut Rng, _n: usize, tier: &str) -> OracleReport {
                 rep.fail("len_atom", format!("atom len={} serialized_length_atom={} want {}", n, serialized_length_atom(&body), ser.len()));
             }
         }
+    }
+    rep
+}
+
+// ---------------------------------------------------------------------------------------------
+// C16: the classic decoders are total and agree (implementation alone)
+
+/// sha256 tree hash of a harness tree, computed here with chia_sha2 (explicit stack)
+fn ref_tree_hash(t: &T) -> [u8; 32] {
+    enum Op<'a> {
+        Visit(&'a T),
+        Combine,
+    }
+    let mut ops = vec![Op::Visit(t)];
+    let mut vals: Vec<[u8; 32]> = Vec::new();
+    while let Some(op) = ops.pop() {
+        match op {
+            Op::Visit(T::Atom(b)) => {
+                let mut h = chia_sha2::Sha256::new();
+                h.update([1u8]);
+                h.update(b);
+                vals.push(h.finalize());
+            }
+            Op::Visit(T::Pair(l, r)) => {
+                ops.push(Op::Combine);
+                ops.push(Op::Visit(r));
+                ops.push(Op::Visit(l));
+            }
+            Op::Combine => {
+                let r = vals.pop().unwrap();
+                let l = vals.pop().unwrap();
+                let mut h = chia_sha2::Sha256::new();
+                h.update([2u8]);
+                h.update(l);
+                h.update(r);
+                vals.push(h.finalize());
+            }
+        }
+    }
+    vals.pop().unwrap()
+}
+
+/// the tree a triple list describes, read back from the buffer (None = the triples are inconsistent)
+fn tree_of_triples(buf: &[u8], tr: &[ParsedTriple], idx: usize, depth: usize) -> Option<(T, u64, u64)> {
+    if depth > 10_000 {
+        return None;
+    }
+    match tr.get(idx)? {
+        ParsedTriple::Atom { start, end, atom_offset } => {
+            let s = *start as usize + *atom_offset as usize;
+            let e = *end as usize;
+            if s > e || e > buf.len() {
+                return None;
+            }
+            Some((T::Atom(buf[s..e].to_vec()), *start, *end))
+        }
+        ParsedTriple::Pair { start, end, right_index } => {
+            if buf.get(*start as usize) != Some(&0xff) {
+                return None;
+            }
+            let (l, ls, le) = tree_of_triples(buf, tr, idx + 1, depth + 1)?;
+            let (r, rs, re) = tree_of_triples(buf, tr, *right_index as usize, depth + 1)?;
+            // children are laid out contiguously inside the parent's byte range
+            if ls != *start + 1 || rs != le || re != *end {
+                return None;
+            }
+            Some((T::pair(l, r), *start, *end))
+        }
+    }
+}
+
+/// all sub-trees in pre-order (the order of the triple list)
+fn preorder(t: &T) -> Vec<&T> {
+    let mut out = Vec::new();
+    let mut st = vec![t];
+    while let Some(t) = st.pop() {
+        out.push(t);
+        if let T::Pair(l, r) = t {
+            st.push(r);
+            st.push(l);
+        }
+    }
+    out
+}
+
+fn check_decoders(rep: &mut OracleReport, b: &[u8]) {
+    rep.evaluations += 1;
+    let hx = if b.len() <= 200 { hex_or_dash(b) } else { format!("<{} bytes: {}…>", b.len(), hex::encode(&b[..24])) };
+    let de = std::panic::catch_unwind(|| {
+        let mut a = Allocator::new();
+        let mut c = Cursor::new(b);
+        node_from_stream(&mut a, &mut c).map(|n| (trees::from_node(&a, n), c.position()))
+    });
+    let th = std::panic::catch_unwind(|| {
+        let mut c = Cursor::new(b);
+        tree_hash_from_stream(&mut c).map(|h| (h, c.position()))
+    });
+    let tr1 = std::panic::catch_unwind(|| {
+        let mut c = Cursor::new(b);
+        parse_triples(&mut c, true).map(|(r, h)| (r, h, c.position()))
+    });
+    let tr0 = std::panic::catch_unwind(|| {
+        let mut c = Cursor::new(b);
+        parse_triples(&mut c, false).map(|(r, h)| (r, h, c.position()))
+    });
+    let canon = std::panic::catch_unwind(|| is_canonical_serialization(b));
+    let lent = std::panic::catch_unwind(|| serialized_length_from_bytes_trusted(b).is_ok());
+    let (Ok(de), Ok(th), Ok(tr1), Ok(tr0), Ok(canon), Ok(_)) = (de, th, tr1, tr0, canon, lent) else {
+        rep.fail("dec_total", format!("input={} a decoder panicked", hx));
+        return;
+    };
+    rep.hit(if de.is_ok() { "accepted" } else { "rejected" });
+    if de.is_ok() != th.is_ok() || de.is_ok() != tr1.is_ok() || de.is_ok() != tr0.is_ok() {
+        rep.fail(
+            "dec_same_inputs",
+            format!(
+                "input={} node_from_stream ok={} tree_hash_from_stream ok={} parse_triples(true) ok={} parse_triples(false) ok={}",
+                hx,
+                de.is_ok(),
+                th.is_ok(),
+                tr1.is_ok(),
+                tr0.is_ok()
+            ),
+        );
+        return;
+    }
+    let Ok((t, pos)) = de else {
+        if canon && !b.contains(&0xfe) {
+            rep.fail("canon_iff", format!("input={} rejected by node_from_stream but is_canonical_serialization=true", hx));
+        }
+        return;
+    };
+    if t.nodes() > 1 || b.len() > 2 {
+        rep.nontrivial += 1;
+    }
+    if t.nodes() > 2 {
+        rep.sample(format!("input {} decodes to {} nodes, {} bytes consumed", hx, t.nodes(), pos));
+    }
+    let (h, hpos) = th.unwrap();
+    let (r1, h1, p1) = tr1.unwrap();
+    let (r0, h0, p0) = tr0.unwrap();
+    if hpos != pos || p1 != pos || p0 != pos {
+        rep.fail("dec_same_consumed", format!("input={} consumed: de={} thash={} triples={} triples0={}", hx, pos, hpos, p1, p0));
+    }
+    if h != ref_tree_hash(&t) {
+        rep.fail("dec_same_hash", format!("input={} tree_hash_from_stream={} recursive hash={}", hx, hex::encode(h), hex::encode(ref_tree_hash(&t))));
+    }
+    if r0 != r1 || h0.is_some() {
+        rep.fail("dec_triples", format!("input={} parse_triples(false) differs from parse_triples(true) in the triples, or returned hashes", hx));
+    }
+    match tree_of_triples(b, &r1, 0, 0) {
+        Some((tt, s, e)) if tt == t && s == 0 && e == pos && r1.len() == t.nodes() => {}
+        other => rep.fail(
+            "dec_triples",
+            format!("input={} triples {:?} describe {:?}, decoded tree {}", hx, r1, other.map(|(tt, s, e)| (trees::to_hex(&tt), s, e)), trees::to_hex(&t)),
+        ),
+    }
+    match h1 {
+        Some(hs) => {
+            let subs = preorder(&t);
+            if hs.len() != subs.len() || hs.iter().zip(subs.iter()).any(|(h, s)| *h != ref_tree_hash(s)) {
+                rep.fail("dec_same_hash", format!("input={} parse_triples hashes are not the pre-order sub-tree hashes", hx));
+            }
+        }
+        None => rep.fail("dec_same_hash", format!("input={} parse_triples(true) returned no hashes", hx)),
+    }
+    // canonical <=> one tree, whole input, re-serialization reproduces it
+    let mut a = Allocator::new();
+    let node = trees::build(&mut a, &t).unwrap();
+    let reser = node_to_bytes_limit(&a, node, b.len() + 16);
+    let want = pos as usize == b.len() && reser.as_ref().map(|r| &r[..] == b).unwrap_or(false);
+    if canon != want {
+        rep.fail(
+            "canon_iff",
+            format!("input={} is_canonical_serialization={} but consumed={} of {} and reserialization={}", hx, canon, pos, b.len(), reser.map(hex::encode).unwrap_or_else(|e| err_kind(&e))),
+        );
+    }
+}
+
+/// mutated / truncated / extended / non-minimal inputs (same shapes as the `classic` stream)
+fn mutated_input(rng: &mut Rng) -> Vec<u8> {
+    let t = trees::random_tree(rng, 40, 70);
+    let mut b = trees::encode(&t);
+    match rng.below(8) {
+        0 | 1 => {}
+        2 => {
+            if !b.is_empty() {
+                let i = rng.below(b.len() as u64) as usize;
+                b[i] = rng.next() as u8;
+            }
+        }
+        3 => {
+            let k = rng.below(b.len() as u64 + 1) as usize;
+            b.truncate(k);
+        }
+        4 => {
+            let k = rng.below(3) as usize + 1;
+            b.extend(rng.bytes(k))
+        }
+        5 => {
+            // non-minimal length prefix in front of a short atom, possibly inside a pair
+            let k = rng.below(5) as usize + 1;
+            let bl = rng.below(3) as usize;
+            let body = rng.bytes(bl);
+            let mut p = vec![0u8; k + 1];
+            p[0] = !(0xffu8 >> (k + 1));
+            p[k] = body.len() as u8;
+            p.extend(body);
+            if rng.chance(1, 2) {
+                let mut q = vec![0xffu8];
+                q.extend(&p);
+                q.extend(&b);
+                b = q;
+            } else {
+                b = p;
+            }
+        }
+        6 => {
+            if !b.is_empty() {
+                let i = rng.below(b.len() as u64) as usize;
+                b.insert(i, *rng.pick(&[0xffu8, 0xfe, 0x80, 0xc0, 0xfc, 0xfd]));
+            }
+        }
+        _ => {
+            let k = rng.below(12) as usize;
+            b = rng.bytes(k);
+        }
+    }
+    b
+}
+
+/// C16 on the implementation alone: exhaustive short inputs, boundary atoms, mutated serializations
+pub fn oracle_decoders(rng: &mut Rng, n: usize, tier: &str) -> OracleReport {
+    let mut rep = OracleReport::default();
+    let maxlen = if tier == "thorough" { 3 } else { 2 };
+    for len in 0..=maxlen {
+        let total = 1u64 << (8 * len);
+        for x in 0..total {
+            let b: Vec<u8> = (0..len).rev().map(|i| (x >> (8 * i)) as u8).collect();
+            check_decoders(&mut rep, &b);
+        }
+    }
+    // three-byte inputs with a structured first byte (all prefix classes) in the quick tier
+    if tier != "thorough" {
+        for f in [0xffu8, 0xfe, 0xfd, 0xfc, 0xfb, 0xf8, 0xf0, 0xe0, 0xc0, 0xbf, 0x82, 0x81, 0x80] {
+            for x in 0..=255u8 {
+                for y in [0u8, 1, 0x7f, 0x80, 0x81, 0xff] {
+                    check_decoders(&mut rep, &[f, x, y]);
+                }
+            }
+        }
+    }
+    for l in boundary_lengths(tier) {
+        for f in [0x00u8, 0x7f, 0x80] {
+            let mut body = vec![0x55u8; l];
+            if l > 0 {
+                body[0] = f;
+            }
+            let enc = trees::encode(&T::Atom(body));
+            check_decoders(&mut rep, &enc);
+            if enc.len() > 1 {
+                check_decoders(&mut rep, &enc[..enc.len() - 1]);
+            }
+            let mut e2 = enc.clone();
+            e2.push(0);
+            check_decoders(&mut rep, &e2);
+        }
+    }
+    for _ in 0..n {
+        let b = mutated_input(rng);
+        check_decoders(&mut rep, &b);
     }
     rep
 }
